@@ -246,7 +246,7 @@ def main(tier):
                         'memory safety is witnessed by ASan/UBSan/LSan, guard bytes behind manifold_<t>_size() bytes, canaries behind caller arrays and the allocator\'s byte count',
                         'accessors are not called for arrays whose advertised length is 0 (see finding F20-1)',
                         'the mirror table drive/capi_table.inc is hand written from the header; a row that is itself wrong shows as a failure on the unchanged tree']
-    if len(bound) < 0.9 * len(exp):
+    if len(bound) < 0.9 * len(exp) and not chk.violations:
         raise vf.ToolError('only %d of %d exported functions were reached' % (len(bound), len(exp)))
     chk.finish()
 
